@@ -375,6 +375,12 @@ def cases(tier, rng):
     D = dbinfo()
     quick = tier == 'quick'
     sweep = option_sweep()
+    # moderately deep nesting (well below the recursion limit) under every option set: the time is bounded — linear, not
+    # doubling with each level (watchdog)
+    for s in ['{' * 28 + 'ab' + '}' * 28, '\\emph{' * 24 + 'x' + '}' * 24, '$' + '{' * 26 + 'y' + '}' * 26 + '$', '\\textbf{\\emph{' * 13 + 'z' + '}}' * 13,
+              '\\begin{center}' * 20 + 'c' + '\\end{center}' * 20, '{\\frac{' * 12 + 'a' + '}{b}}' * 12, '\\sqrt[' * 10 + 'n' + ']{x}' * 10]:
+        for o in sweep[::4]:
+            yield {'s': s, 'o': o}
     # (0) a user database with replacement callables of every kind (oracle only)
     for s in USERDB_DOCS:
         for o in sweep[::3]:
